@@ -128,6 +128,10 @@ fn allowed_spans(root: &toml_edit::Item, f: &Fired) -> Vec<std::ops::Range<usize
                 allowed.push(s);
                 break;
             }
+            // a span-less ancestor that the reader wrapped in Spanned is located by its cover range
+            if let Some(c) = resolve(root, &p).and_then(|n| cover_span(&n)) {
+                allowed.push(c);
+            }
         }
     };
     with_fallback(&npath, key_level, &mut allowed);
